@@ -206,6 +206,25 @@ pub fn run(job: &Value, t: &mut Trace) -> usize {
                     _ => false,
                 });
             }
+            // the path-taking front end (opens the file read-write, rebuilds by re-creating the same path) must do exactly
+            // what update_file did on the in-memory copy: same verdict, same resulting file, original intact on refusal
+            if let Some(dir) = job["path_dir"].as_str() {
+                let every = job["path_every"].as_u64().unwrap_or(1).max(1) as usize;
+                if runs % every == 0 {
+                    let path = std::path::Path::new(dir).join(format!("u{}.flac", std::process::id()));
+                    std::fs::write(&path, &before).expect("write temp flac");
+                    let pr = catch(|| flac_codec::metadata::update::<_, flac_codec::Error>(&path, |blocks| apply_edit(blocks, e)));
+                    let after = std::fs::read(&path).unwrap_or_default();
+                    let _ = std::fs::remove_file(&path);
+                    let (pret, want): (&str, &Vec<u8>) = match &pr {
+                        Ok(Ok(false)) => ("inplace", newfile.unwrap_or(&before)),
+                        Ok(Ok(true)) => ("rebuilt", newfile.unwrap_or(&before)),
+                        Ok(Err(_)) => ("err", &before),
+                        Err(_) => ("panic", &before),
+                    };
+                    ev["path"] = json!({"ret": pret, "same": &after == want});
+                }
+            }
             t.emit(ev);
             match &r {
                 Ok(Ok(false)) => file = orig_after,
